@@ -10,7 +10,7 @@ from harness.props import c01, c01_regen
 
 
 def poison_for(rng, prog, idx):
-    kind = rng.choice(['raise', 'check', 'writer', 'raise'])
+    kind = rng.choice(['raise', 'check', 'writer', 'raise', 'writer2'])
     p = copy.deepcopy(prog)
     p['name'] = f'poison{idx}'
     if kind == 'raise':
@@ -31,6 +31,11 @@ def poison_for(rng, prog, idx):
     elif kind == 'check':
         p['events'].append({'t': 'atom', 'cls': 'Line', 'ctor': 'kr',
                             'ins': [['bad', 'none'], ['n', 1, 1], ['n', 1, 1], ['n', 0, 1]]})
+    elif kind == 'writer2':
+        # the writer fails half-way: name and counts are written, then a constant that is not a
+        # binary32 number (struct.pack raises OverflowError)
+        p['events'].append({'t': 'atom', 'cls': 'Line', 'ctor': 'kr',
+                            'ins': [['n', 10 ** 39, 1], ['n', 1, 1], ['n', 1, 1], ['n', 0, 1]]})
     else:
         p['name'] = 'w' * 300          # writer refuses names longer than 255
     p['kind'] = kind
@@ -97,7 +102,11 @@ class Check(c01.Check):
                                      'poison_canon': (runs[k][i].get('poison') or {}).get('canon')}
                                  for k in keys},
                          'thread_errors': [runs[k][0].get('thread_errors') for k in keys if runs[k] and runs[k][0].get('thread_errors')],
-                         'args_probe': {k: runs[k][0].get('args_probe') for k in keys} if i == 0 else None,
+                         'args_probe': {k: [x for x in (runs[k][0].get('args_probe') or []) if not x.startswith('DIGESTS')]
+                                        for k in keys} if i == 0 else None,
+                         'probe_digests': {k: [x for x in (runs[k][0].get('args_probe') or []) if x.startswith('DIGESTS')]
+                                           for k in keys} if i == 0 else None,
+                         'barrier': {k: runs[k][0].get('barrier_current_none') for k in keys} if i == 0 else None,
                          'hang': {k: True for k in keys if runs[k][i].get('hang')},
                          'residue_after_threads': [runs[k][0].get('residue_after_threads') for k in keys if runs[k]]})
         self._impl_outs = outs
@@ -117,6 +126,15 @@ class Check(c01.Check):
         for k, probs in (io.get('args_probe') or {}).items():
             if probs:
                 return {'what': f'{k}: {probs[0]}', 'signature': 'c20:build-arguments'}
+        dg = io.get('probe_digests') or {}
+        if len({tuple(v) for v in dg.values()}) > 1:
+            return {'what': f'definitions with rates / five variants built under different hash seeds, modes or after other '
+                            f'builds differ: {dg}', 'signature': 'c20:probe-nondeterministic'}
+        for k, smp in (io.get('barrier') or {}).items():
+            if smp and not all(smp):
+                return {'what': f'{k}: with all builder threads between two builds (nothing being built) the global current '
+                                f'definition was not None in {smp.count(False)} of {len(smp)} rendez-vous points',
+                        'signature': 'c20:residue-concurrent'}
         ref = io['ref']['canon']
         for k, v in io['all'].items():
             for which in ('first', 'second', 'threaded'):
